@@ -7,16 +7,20 @@ TECH = "bounded symbolic execution of the real Go code (go/ssa of /repo's workin
 NOTE_COMMON = (" Trusted base: the gosym executor in /verif/engine (go/ssa semantics, intrinsics for sync/fmt/errors/logger/crc32), z3 4.8.12, the stubs and representation invariants written in the harness files (listed in the evidence). "
                "A pass means: for all values of the symbolic inputs within the stated bounds, one (or the stated number of) step(s); nothing is claimed outside the bounds, and step lemmas extend to histories only through the paper argument named in DESIGN.md.")
 CLAIMS = {
- 'C02': ("Step lemmas of replica agreement decided by the solver on the real raft.Handle / entryLog code from an arbitrary symbolic replica state: committed prefix immutable, follower append = Raft AppendEntries rule, commit index bounds. Histories are covered only through the (unchecked) Raft induction argument.", "§4/C02"),
- 'C03': ("Step lemmas of election safety on the real raft.Handle: one vote per term, a grant is recorded in (term,vote) before the response exists, election restriction, from an arbitrary symbolic state of a 3-voter replica.", "§4/C03"),
- 'C05': ("The at-most-once session contract of rsm.StateMachine.handleEntry/update + SessionManager/lrusession decided for an arbitrary symbolic session history and entry (unregistered => rejected, acknowledged => ignored, cached => same result without Update, fresh => exactly one Update, retry => same result).", "§4/C05"),
- 'C07': ("One-step induction over membership.handleConfigChange from an arbitrary valid membership: kinds stay disjoint, removed ids never return, only non-voting->voting promotion, last voter stays, address uniqueness, ordered config change id rule.", "§4/C07"),
+ 'C02': ("Step lemmas of replica agreement decided on the real raft.Handle/entryLog/rsm code from an arbitrary symbolic replica state: committed prefix immutable for every message type (L1), follower append = AppendEntries rule incl. conflict truncation (L2), follower/heartbeat commit bounds (L3), leader commit rule against an independent quorum count incl. multi-witness shapes and arbitrary scratch contents (L4), InstallSnapshot restore/commit, rsm apply order across batches (A1). Histories are covered only through the (unchecked) Raft induction argument.", "§4/C02"),
+ 'C03': ("Step lemmas of election safety: one vote per term and term monotonicity for every message type (V1), grant recorded before the response exists (V2), election restriction (V3), leader only from a quorum of granted votes of voting members counted independently (V4), restart reloads term/vote/commit and refuses a second vote (V5), new leader appends an own-term entry (V6), pre-vote traffic never changes term/vote, lower-term messages change nothing, no campaign with unapplied committed entries.", "§4/C03"),
+ 'C05': ("The at-most-once session contract of rsm.StateMachine.handleEntry/update + SessionManager/lrusession decided differentially against a reference table over sequences of symbolic register/unregister/update/retry/acknowledge entries incl. LRU eviction, plus retry-anywhere-later and late-duplicate lemmas, plus the snapshot clause through the real session save/load path (twin harness; JSON modelled as identity).", "§4/C05"),
+ 'C06': ("ReadIndex lemmas: a request is queued only by a leader with a committed entry of its term, with the commit index of that moment (R1); release needs a quorum of distinct voting confirmations counted independently and releases exactly the requests queued no later with index >= recorded and <= commit (R2,R5); hinted heartbeats (immediate and periodic) go to voting members only (R3); pending reads never survive a term/role change (R4); follower forwarding/ReadIndexResp pass-through.", "§4/C06"),
+ 'C07': ("One-step induction over membership.handleConfigChange from an arbitrary valid membership (kinds disjoint, removed never return, only promotion, last voter stays, address uniqueness, ordered id rule) plus raft-side lemmas: one pending config change per leader log, extra ones replaced and reported dropped, applied change mirrors into remotes/nonVotings/witnesses, removed leader steps down, no campaign with unapplied committed entries, new leader inherits the pending flag, on-disk restart applies membership changes in the skipped range.", "§4/C07"),
+ 'C08': ("Twin-replica equivalence on the real rsm.StateMachine: a replica recovering from a snapshot taken at any cut (fresh follower, lagging follower with a prefix applied, restart) and then handed the whole batch ends in exactly the state (user update list, session table incl. LRU order, membership, applied index/term) of the replica that applied everything; InstallSnapshot restore lemmas on the raft side.", "§4/C08"),
  'C10': ("No failed write reported as success: every db save path over a KV stub failing at a symbolic call index must return an error or panic; success implies exactly one committed batch.", "§4/C10"),
- 'C11': ("Lock discipline of NativeSM Lookup vs Close decided over all 2-thread interleavings at synchronisation-point granularity (thread mode of the executor).", "§4/C11"),
+ 'C11': ("User state machine call discipline: every path into the user SM holds the lock the contract demands (Update/Sync/Open/Recover write lock, plain Lookup/Save read lock) checked against the executor's lock state; indexes reach Update exactly once, strictly increasing, across batches, snapshots and on-disk restarts; all 2-thread interleavings of NativeSM.Lookup vs Close at synchronisation-point granularity.", "§4/C11"),
  'C12': ("Exactly-one-terminal-result ledger for proposalShard under arbitrary symbolic op sequences (applied/dropped/tick+gc/close with symbolic keys, ids, ticks) and a 2-thread schedule exploration of committed() vs gc/Release/pool reuse.", "§4/C12"),
  'C13': ("Round trip, exact Size and SizeUpperLimit of the raftpb State and Entry codecs for fully symbolic 64-bit field values (pairs of fields for Entry) and small symbolic payloads.", "§4/C13"),
  'C14': ("BlockWriter->blockReader and SnapshotWriter->SnapshotReader byte identity for symbolic payloads under every write/read split, and detection of every single-byte alteration of a block stream (CRC modelled as an uninterpreted function with the one-byte-difference axiom).", "§4/C14"),
- 'C19': ("entryLog query answers (lastIndex, firstIndex, term) equal the logical-log abstraction for an arbitrary symbolic log (persisted part + in-memory window + applied-to shortcut) and a symbolic probe index.", "§4/C19"),
+ 'C17': ("Bounded single-replica progress lemmas: tick-driven campaign within 2*electionTimeout for a voting member (never for non-voting/witness/removed), leader-transfer abort within electionTimeout and proposals accepted again, flow control cannot stay parked (heartbeat response un-pauses and re-replicates, rejection backs off, snapshot status ends snapshot state), NoOP reply to lower-term leaders under CheckQuorum/PreVote and step-down on higher terms. Cluster-level liveness is outside.", "§4/C17"),
+ 'C18': ("Role lemmas for every step (frame): non-voting/witness replicas never campaign or lead, witnesses never receive payloads or full snapshots, read hints only to voting members, raft-side kinds stay disjoint; plus TimeoutNow never makes a removed replica campaign, CheckQuorum counts active voting members only (independent count), quorums of commit/election/read confirmation checked against independent counts in the C02/C03/C06 harnesses.", "§4/C18"),
+ 'C19': ("entryLog/inMemory/Peer vs the logical-log abstraction: every query (lastIndex, firstIndex, term, lastTerm, upToDate, matchTerm, range reads, entriesToSave, entriesToApply) answers what the abstraction says for a symbolic log incl. pending snapshot, stale shadowed entries and the applied-index shortcut; append/restore commute with the abstraction and re-appended entries must be persisted again; one GetUpdate -> persist -> Commit cycle with arbitrary apply lag never changes the logical log, never hands an entry out twice, and keeps the representation invariant.", "§4/C19"),
 }
 NA = {
  'C01': "linearizability of concurrent client histories needs goroutine schedules through NodeHost/engine/transport on several replicas; not encodable by a bounded symbolic executor for Go built here (its mechanisms are decided as lemmas under C02/C06/C11/C12) — see DESIGN.md §4/C01, §5",
